@@ -88,6 +88,8 @@ impl<'a, T: Copy, const N: usize> ShimTryInto<[T; N]> for &'a [T] {
 }
 #[derive(Debug)]
 pub struct TryFromIntError;
+// ASSUMED (conformance: harness shim_int_conversions): widening u8 -> i32 keeps the value (vstd specifies the unsigned targets only)
+pub assume_specification[<i32 as core::convert::From<u8>>::from](x: u8) -> (r: i32) ensures r == x as i32;
 impl ShimTryInto<usize> for u32 {
     type Error = TryFromIntError;
     #[verifier::external_body]
